@@ -53,6 +53,8 @@ fn returned_instead_of_panicking() {
         let v = core::ptr::read_volatile(p);
         core::hint::black_box(v);
     }
+    #[cfg(not(kani))]
+    crate::src::missed_panic();
 }
 
 fn i128_of(x: &I128) -> i128 { let w = x.as_words(); (w[0] as u128 | ((w[1] as u128) << 64)) as i128 }
